@@ -11,8 +11,15 @@ class Q:
         s.failed = []      # (name, model-dict)     -> candidate violations
         s.inconclusive = []  # names
         s.proved = []
-    def check(s, pc, goal_neg, name, tactic=None):
+    def check(s, pc, goal_neg, name, tactic=None, abstract=True):
         """asks: exists assignment with pc and goal_neg ? unsat -> obligation `name` holds"""
+        if abstract:
+            ex = abstract_mul(list(pc) + [goal_neg])
+            if not all(a.eq(b) for a, b in zip(ex, list(pc) + [goal_neg])):
+                sol = z3.Solver(); sol.set('timeout', int(min(s.timeout, 30) * 1000)); sol.add(*ex)
+                t = time.time(); r = sol.check(); s.solver_s += time.time() - t; s.n += 1
+                if r == z3.unsat: s.unsat += 1; s.proved.append(name); return 'unsat', None
+                s.n -= 1          # abstraction inconclusive: decide with real multiplication below
         sol = z3.Solver() if tactic is None else z3.Tactic(tactic).solver()
         sol.set('timeout', int(s.timeout * 1000))
         for p in pc: sol.add(p)
@@ -34,12 +41,65 @@ class Q:
         a = bv(a, w); b = bv(b, w)
         if a.eq(b): s.n += 1; s.unsat += 1; s.proved.append(name); return 'unsat', None
         return s.check(pc, a != b, name)
+    def prove_array_eq(s, pc, A, Bx, name):
+        """two scratchpad/dataset array terms are equal: same store chains pairwise, else extensionally at a fresh index"""
+        if A.eq(Bx): s.n += 1; s.unsat += 1; s.proved.append(name); return True
+        ra, sa = store_chain(A); rb, sb = store_chain(Bx)
+        if ra.eq(rb) and len(sa) == len(sb):
+            ok = True
+            for k, ((ia, va), (ib, vb)) in enumerate(zip(sa, sb)):
+                ok &= s.prove_eq(pc, ia, ib, '%s: address of store %d' % (name, k))[0] == 'unsat'
+                ok &= s.prove_eq(pc, va, vb, '%s: value of store %d' % (name, k))[0] == 'unsat'
+            return ok
+        j = z3.BitVec('j_any', A.sort().domain().size())
+        return s.check(pc, z3.Select(A, j) != z3.Select(Bx, j), name + ' (byte at arbitrary index)')[0] == 'unsat'
     def feasible(s, pc):
         sol = z3.Solver(); sol.set('timeout', int(s.timeout * 1000)); sol.add(*pc)
         t = time.time(); r = sol.check(); s.solver_s += time.time() - t; s.n += 1
         return r == z3.sat
     def stats(s):
         return dict(queries=s.n, unsat=s.unsat, sat=s.sat, unknown=s.unknown, solver_s=round(s.solver_s, 3))
+
+_MULUF = {}
+_ABS_MEMO = {}
+_ABS_KEEP = []
+def abstract_mul(exprs):
+    """replace every wide bit-vector multiplication by a commutative uninterpreted function of its operands.
+    Sound for proving equalities (unsat under the abstraction implies unsat for real multiplication)."""
+    memo = _ABS_MEMO
+    def rebuild(root):
+        stack = [(root, False)]
+        while stack:
+            n, done = stack.pop(); i = n.get_id()
+            if i in memo: continue
+            if not done:
+                stack.append((n, True))
+                for c in n.children():
+                    if c.get_id() not in memo: stack.append((c, False))
+                continue
+            ch = [memo[c.get_id()] for c in n.children()]
+            if z3.is_app(n) and n.decl().kind() == z3.Z3_OP_BMUL and n.size() >= 32 and sum(1 for c in ch if not z3.is_bv_value(c)) >= 2:
+                w = n.size(); f = _MULUF.get(w)
+                if f is None: f = _MULUF[w] = z3.Function('MUL%d' % w, z3.BitVecSort(w), z3.BitVecSort(w), z3.BitVecSort(w))
+                r = ch[0]
+                for c in ch[1:]:
+                    lo = z3.If(z3.ULE(r, c), r, c); hi = z3.If(z3.ULE(r, c), c, r); r = f(lo, hi)
+                memo[i] = r
+            elif n.num_args() == 0: memo[i] = n
+            elif z3.is_app(n):
+                try: memo[i] = n.decl()(*ch)
+                except Exception: memo[i] = n
+            else: memo[i] = n
+        return memo[root.get_id()]
+    _ABS_KEEP.extend(exprs)
+    return [rebuild(e) for e in exprs]
+
+def store_chain(arr):
+    """(root, [(index, value) oldest first]) of a z3 Store chain"""
+    st = []
+    while z3.is_app(arr) and arr.decl().kind() == z3.Z3_OP_STORE:
+        st.append((arr.arg(1), arr.arg(2))); arr = arr.arg(0)
+    return arr, st[::-1]
 
 def model_dict(m):
     d = {}
@@ -75,4 +135,9 @@ def extent_checks(q, pc, mem, prefix='extent'):
         if key in seen: continue
         seen.add(key)
         q.prove(pc, z3.And(z3.ULE(off, size - nb)), '%s:%s %s %d bytes @%s' % (prefix, kind, obj, nb, k)); k += 1
+    for (obj, off, cands, kind) in getattr(mem, 'cand_checks', []):
+        off = bv(off, 64); key = (obj, off.get_id(), cands, kind)
+        if key in seen: continue
+        seen.add(key)
+        q.prove(pc, z3.Or([off == c for c in cands]) if cands else z3.BoolVal(False), '%s:%s %s hits one of %d cells @%s' % (prefix, kind, obj, len(cands), k)); k += 1
     return k
